@@ -21,6 +21,10 @@ type AbsEnv struct {
 	// every loop it skips.  SkipLoops makes for/range statements no-ops instead of Unknown.
 	OnExec    func(n ast.Node)
 	SkipLoops bool
+	// Inline, if set, gives the source of a statically resolved callee; a call whose
+	// arguments fold is then evaluated by folding the callee's body (depth-limited).
+	Inline func(f *types.Func) *FuncSrc
+	depth  int
 }
 
 type absResult struct {
@@ -128,8 +132,69 @@ func (env *AbsEnv) expr(e ast.Expr) constant.Value {
 				return wrap64(env, e, v)
 			}
 		}
+		if env.Inline != nil && env.depth < 5 {
+			if callee := Callee(env.Info, x); callee != nil {
+				if src := env.Inline(callee); src != nil && src.Body != nil {
+					sig := callee.Type().(*types.Signature)
+					if sig.Params().Len() == len(x.Args) && !sig.Variadic() && sig.Results().Len() == 1 {
+						sub := &AbsEnv{Info: src.Info(), Atom: env.Atom, Inline: env.Inline, OnExec: env.OnExec, SkipLoops: false, depth: env.depth + 1, Locals: map[types.Object]constant.Value{}}
+						// parameters of the declaration (the objects the body refers to)
+						var params []*ast.Ident
+						if src.Decl != nil && src.Decl.Type.Params != nil {
+							for _, fld := range src.Decl.Type.Params.List {
+								params = append(params, fld.Names...)
+							}
+						}
+						if len(params) == len(x.Args) {
+							for i, a := range x.Args {
+								sub.Locals[sub.Info.Defs[params[i]]] = env.expr(a)
+							}
+							r := sub.run(src.Body)
+							if r.Unknown == "" && !r.Panics && len(r.Returns) == 1 {
+								return r.Returns[0]
+							}
+						}
+					}
+				}
+			}
+		}
 	}
 	return nil
+}
+
+// compound folds x op= y for the integer operators; nil if it cannot.
+func (env *AbsEnv) compound(lhs ast.Expr, tok token.Token, cur, y constant.Value) constant.Value {
+	if cur == nil || y == nil || cur.Kind() != constant.Int || y.Kind() != constant.Int {
+		return nil
+	}
+	var op token.Token
+	switch tok {
+	case token.ADD_ASSIGN:
+		op = token.ADD
+	case token.SUB_ASSIGN:
+		op = token.SUB
+	case token.MUL_ASSIGN:
+		op = token.MUL
+	case token.AND_ASSIGN:
+		op = token.AND
+	case token.OR_ASSIGN:
+		op = token.OR
+	case token.XOR_ASSIGN:
+		op = token.XOR
+	case token.SHL_ASSIGN, token.SHR_ASSIGN:
+		n, ok := constant.Uint64Val(y)
+		if !ok {
+			return nil
+		}
+		sh := token.SHL
+		if tok == token.SHR_ASSIGN {
+			sh = token.SHR
+		}
+		return wrap64(env, lhs, constant.Shift(cur, sh, uint(n)))
+	default:
+		return nil
+	}
+	return wrap64(env, lhs, constant.BinaryOp(cur, op, y))
 }
 
 func isNum(v constant.Value) bool { return v.Kind() == constant.Int || v.Kind() == constant.Float }
@@ -269,7 +334,7 @@ func (env *AbsEnv) stmt(s ast.Stmt) (absResult, bool) {
 				case token.DEFINE, token.ASSIGN:
 					env.Locals[o] = vals[i]
 				default:
-					env.Locals[o] = nil
+					env.Locals[o] = env.compound(l, s.Tok, env.Locals[o], vals[i])
 				}
 			}
 		}
